@@ -27,7 +27,9 @@ def apply_op(op, label, vals):
 def denote(shape):
     """Failure-free denotation of a shape, computed without StreamFlow: (final value, {job name: value})."""
     kind = shape["kind"]
-    ftype = shape["type"]  # 'file' | 'primitive'
+    ftype = shape["type"]  # 'file' | 'file2' (file + secondary file) | 'primitive'
+    if ftype == "file2":
+        ftype = "file"
     v = "seed" if ftype == "file" else 3
     if kind == "pipeline":
         for i in range(shape["n"]):
@@ -87,7 +89,7 @@ def step_names(shape):
 def dag_of(shape):
     """The unfolded job DAG of a shape for the Coq model: list of (job name | None, [input indexes], op term).
     Index 0 is the workflow input (never lost, never fails)."""
-    kind, fil = shape["kind"], shape["type"] == "file"
+    kind, fil = shape["kind"], shape["type"] in ("file", "file2")
 
     def q(s):
         return '"' + s + '"'
